@@ -211,3 +211,86 @@ def depends_on(du: DefUse, n: Node, expr: ast.AST, _seen=None, depth: int = 0) -
                     if isinstance(d.value, ast.AugAssign):
                         out |= depends_on(du, d.node, d.value.target, _seen, depth + 1)
     return out
+
+
+class Origin:
+    """Where a value comes from: ``leaf`` evaluated at ``node``, then subscripted by ``path``.
+
+    kind: 'param' (leaf is None, name = parameter), 'elem' (an element of the iterable ``leaf``),
+    'with' (the object bound by ``with leaf as``), 'expr' (any other expression)."""
+
+    __slots__ = ("kind", "leaf", "path", "node", "name", "conds")
+
+    def __init__(self, kind, leaf, path, node, name=None):
+        self.kind, self.leaf, self.path, self.node, self.name = kind, leaf, tuple(path), node, name
+        self.conds = []   # [(test expr, polarity, node)] of the conditional expressions passed on the way
+
+    def is_none(self) -> bool:
+        return self.kind == "expr" and isinstance(self.leaf, ast.Constant) and self.leaf.value is None and not self.path
+
+    def __repr__(self):
+        return "<Origin %s %s%s>" % (self.kind, self.name or (src(self.leaf)[:50] if self.leaf is not None else ""), list(self.path) or "")
+
+
+def origins(du: DefUse, n: Node, e: ast.AST, path=(), _seen=None, depth: int = 0) -> List[Origin]:
+    """Follow local names, constant subscripts, tuple literals and conditional expressions back to the
+    expressions that produce the value of *e* at *n* (names of helpers do not matter: inlined helpers
+    are ordinary assignments in the CFG)."""
+    _seen = _seen if _seen is not None else set()
+    path = tuple(path)
+    if depth > 16:
+        return [Origin("expr", e, path, n)]
+    if isinstance(e, ast.Name):
+        out: List[Origin] = []
+        defs = du.reaching(n, e.id)
+        if not defs:
+            return [Origin("expr", e, path, n)]
+        for d in defs:
+            key = (id(d), path)
+            if key in _seen:
+                continue
+            _seen.add(key)
+            if d.kind == "param":
+                out.append(Origin("param", None, path, None, d.name))
+            elif d.kind == "assign" and d.value is not None:
+                out.extend(origins(du, d.node, d.value, tuple(d.index) + path, _seen, depth + 1))
+            elif d.kind == "for":
+                for it in iter_exprs(du, d.node, _seen, depth + 1):
+                    out.append(Origin("elem", it, tuple(d.index) + path, d.node))
+            elif d.kind == "with":
+                out.append(Origin("with", d.value, tuple(d.index) + path, d.node))
+            else:
+                out.append(Origin("expr", d.value if d.value is not None else e, path, d.node, d.name))
+        return out
+    if isinstance(e, ast.Subscript) and isinstance(e.slice, ast.Constant) and isinstance(e.slice.value, int):
+        return origins(du, n, e.value, (e.slice.value,) + path, _seen, depth + 1)
+    if isinstance(e, (ast.Tuple, ast.List)) and path and isinstance(path[0], int) and 0 <= path[0] < len(e.elts) \
+            and not any(isinstance(x, ast.Starred) for x in e.elts):
+        return origins(du, n, e.elts[path[0]], path[1:], _seen, depth + 1)
+    if isinstance(e, ast.IfExp):
+        a = origins(du, n, e.body, path, _seen, depth + 1)
+        b = origins(du, n, e.orelse, path, _seen, depth + 1)
+        for o in a:
+            o.conds.append((e.test, True, n))
+        for o in b:
+            o.conds.append((e.test, False, n))
+        return a + b
+    if isinstance(e, ast.NamedExpr):
+        return origins(du, n, e.value, path, _seen, depth + 1)
+    if isinstance(e, ast.Await):
+        return origins(du, n, e.value, path, _seen, depth + 1)
+    return [Origin("expr", e, path, n)]
+
+
+def iter_exprs(du: DefUse, for_node: Node, _seen=None, depth: int = 0) -> List[ast.AST]:
+    """The expression(s) a ``for`` node iterates over, looking through ``it = <expr>; for x in it``."""
+    it = for_node.ast.iter
+    if isinstance(it, ast.Name):
+        out = []
+        for o in origins(du, for_node, it, (), _seen, depth + 1):
+            if o.kind == "expr" and not o.path and o.leaf is not None and not isinstance(o.leaf, ast.Name):
+                out.append(o.leaf)
+            else:
+                return [it]
+        return out or [it]
+    return [it]
